@@ -1,13 +1,83 @@
 CFG = {
     "modules": ["Parsley.Props.C06"],
-    "theorems": ["Parsley.C06.placeholder"],
-    "partial": {},
+    "theorems": [
+        "Parsley.C06.hex_roundtrip", "Parsley.C06.a85_roundtrip",
+        "Parsley.C06.flate_glue_complete", "Parsley.C06.flate_glue_rejects",
+        "Parsley.C06.inflate_stored_roundtrip", "Parsley.C06.adler_model_eq_spec",
+        "Parsley.C06.chain_roundtrip", "Parsley.C06.decode_stream_roundtrip",
+        "Parsley.C06.dict_pruned", "Parsley.C06.filters_shape", "Parsley.C06.corrupt_is_error",
+        "Parsley.C06.flate_old_glue_truncates", "Parsley.C06.hex_old_witness",
+        "Parsley.C06.hex_old_parity_witness", "Parsley.C06.a85_old_witness",
+    ],
+    "partial": {
+        "flate_huffman_roundtrip (not a theorem)":
+            "inflate_stored_roundtrip proves the executable Lean inflate only for zlib streams made of stored blocks "
+            "(any partition, any trailing bytes). Fixed- and dynamic-Huffman blocks are implemented executably in "
+            "Model/Inflate.lean and enter chain_roundtrip through the hypothesis `Inflate.inflate e = ok x` "
+            "(LayerEnc.flateAny); that the real zlib and the Lean inflate agree on Huffman streams is established by the "
+            "correspondence run only (payloads compressed by the real zlib at levels 0-9, all boundary sizes, both "
+            "decoders must return the payload).",
+        "Parsley.C06.corrupt_is_error":
+            "proved for: illegal ASCIIHex character, missing ASCIIHex EOD, misaligned ASCII85 z, every stream the zlib "
+            "decoder rejects (glue never returns partial output; errors propagate through outer layers). NOT proved as "
+            "theorems (covered by executed `example`s and the `mal` correspondence stream): that an illegal ASCII85 "
+            "character and an ASCII85 group >= 2^32 are rejected for all positions, and that every truncation / "
+            "checksum flip of a zlib stream is rejected by the Lean inflate.",
+    },
     "n": {"quick": 300, "thorough": 6000},
     "exhaustive": {"quick": False, "thorough": False},
     "rustgen": True,
     "shrink": False,
-    "rule": "tbd",
-    "trusted_base": COMMON_TB + [],
-    "assumptions": [],
+    "rule": "corpus (DESIGN 4 #6-#10 inputs, trim/framing oddities) first; rt: recipes built by the Lean spec encoders - every "
+            "chain of length <= 2 (quick; all 84 chains <= 3 thorough) over {ASCIIHex, ASCII85, Flate-stored, Flate-fixed-Huffman} "
+            "x payload lengths {0..5,7,8,9,16,17,63} x {/Filter name, array, array + parallel /DecodeParms} x EOL after "
+            "data {none, LF, CRLF, CR}; payloads of 32767..100000 bytes (thorough: to 3 MB) in stored blocks of any partition; "
+            "random recipes (white space sprinkled by seed, digit case, odd-digit shorthand, z / !!!!! per group, partition "
+            "of stored blocks, parameter dictionaries {null, <<>>, <</Predictor 1>>, <</Colors 3 /Columns 5>>}); sh: 12 "
+            "/Filter x /DecodeParms shapes (5 accepted, 6 rejected, 1 lenient) x chain length 0..3 x 4 parameter variants, "
+            "unknown filter name at every position; mal: 13 corruptions (illegal char, missing EOD, misaligned z, group "
+            ">= 2^32, truncated zlib, Adler-32 flip, header check, LEN/NLEN, method) on outermost and inner layers; rz "
+            "(native generator): payloads of 23 boundary sizes 0..100000 (+1 MiB; thorough to 4 MiB) x 5 content kinds "
+            "compressed by the REAL zlib at every level 0-9, and random chains <= 3 with real-zlib Flate layers; fz: random "
+            "bytes and single-byte mutations of valid encodings (correspondence and no-panic only, judged `skip`). "
+            "The judge rebuilds dictionary and content from the recipe with the spec encoders, rejects a case whose data "
+            "differ, and derives the expected outcome from the recipe. non-trivial = recipe with >= 1 filter layer and a "
+            "non-empty payload, or a rejecting shape, or a corruption, or a real-zlib case of >= 16 bytes",
+    "trusted_base": COMMON_TB + [
+        "modelled from vendored source, not verified: binascii-0.1.4 hex2bin, ascii85-0.2.1 decode (incl. str::trim on the "
+        "staged chars and u32 overflow checks of the dev profile: the harness is built with overflow-checks = true; in a "
+        "release build an ASCII85 group >= 2^32 would wrap silently inside the crate instead of being caught)",
+        "modelled, not verified: flate2 read::ZlibDecoder + zlib as the executable Lean inflate (Model/Inflate.lean; "
+        "stored blocks proved, Huffman blocks by correspondence with real zlib output at levels 0-9); std::io::Read::read_to_end "
+        "as `readToEnd` over a pull-style decoder with a progress measure",
+        "rz cases: the harness's native generator (flate2 compressor, small hex/ASCII85 writers) is trusted to emit encodings "
+        "of the payload it states; the judge only compares the implementation's output with that payload",
+        "out of scope, passed as parameters: flate_lzw_filter for /Predictor != 1 (C07), DCTDecode (jpeg-decoder), LZWDecode "
+        "(decode_stream rejects it as unknown filter)",
+    ],
+    "assumptions": [
+        "requires pending_fixes/C06-01..03 applied to /repo (the model mirrors the repaired glue; on the unrepaired tree the "
+        "check reports the DESIGN 4 #6-#10 violations)",
+        "/Predictor is absent or 1 in every Flate parameter dictionary (predictor reversal is property C07)",
+        "stream dictionaries hold direct objects (an indirect /Filter is not resolved by StreamT::filters and is treated as absent)",
+    ],
 }
-LEVEL = {"design_ref": "DESIGN.md 3.C06", "technique": "tbd", "text": "tbd"}
+LEVEL = {
+    "design_ref": "DESIGN.md 3.C06",
+    "technique": "Lean 4 theorems over an executable model of the filter glue, the binascii/ascii85 crates and a Lean inflate; "
+                 "differential correspondence with decode_stream on spec-encoded, corrupted and real-zlib-compressed streams",
+    "text": "Machine-checked proof, for all payloads of any length and all conformant encodings (white space anywhere, either "
+            "hex case, odd-digit shorthand, z or !!!!! per zero group, 2-4 digit final group, any partition into stored "
+            "blocks, any bytes after the zlib trailer or the hex EOD), that the model of ASCIIHexDecode, ASCII85Decode and "
+            "FlateDecode returns exactly the payload (hex_roundtrip, a85_roundtrip incl. the base-85 arithmetic and absence "
+            "of u32 overflow, inflate_stored_roundtrip); that the Flate glue returns the whole payload for EVERY correct "
+            "streaming decoder however it chunks, and an error whenever the decoder fails after any number of chunks "
+            "(flate_glue_complete / flate_glue_rejects - the theorem the 32 KiB truncation falsified); that chains of any length "
+            "decode to the payload with the dictionary pruned of exactly /Filter and /DecodeParms (chain_roundtrip, "
+            "decode_stream_roundtrip, dict_pruned); the full /Filter x /DecodeParms decision table (filters_shape); and that "
+            "the unambiguous corruptions are errors that propagate through outer layers (corrupt_is_error, partial: see "
+            "coverage.partial_theorems). Huffman-coded zlib streams are NOT covered by a theorem: the executable Lean inflate "
+            "is tied to the real zlib (levels 0-9) and the whole model to decode_stream by the correspondence run of every "
+            "check. Three defects of /repo (Flate truncation at 32 KiB / truncated streams accepted; ASCIIHex rejecting all "
+            "input; ASCII85 rejecting z) are witnessed by theorems about the pre-repair glue and repaired by pending_fixes/C06-01..03.",
+}
